@@ -3,6 +3,7 @@ from . import shared as S
 from . import dumpside as D
 
 META = {
+    'claim_added': "Also decided: class-level mutable defaults mutated through self are reported; resolver patch aliasing is decided by partial evaluation over PyYAML's own list objects (slice assignment, any/reversed supported).",
     'level': 'other',
     'technique': 'static effect analysis: alias roots of every store / mutator call in the call closure of the load and dump '
                  'entry points, classified by lifetime of the written object (instantiation site); who-may-register rules; '
